@@ -322,12 +322,13 @@ def pda_find_epsilon_path(P: PDA, R: Set[PDAState], f: PDAState) -> Optional[Lis
                 if pda_can_pop_push(P, src.stack, u, v):
                     stack1 = pda_pop_push(P, src.stack, u, v)
                     target = PDAState(q, stack1)
+                    if target in visited:
+                        continue
                     backpointers[target] = src
                     if target == f:
                         return make_path(target)
-                    if target not in visited:
-                        todo.add(target)
-                        visited.add(target)
+                    todo.add(target)
+                    visited.add(target)
     return None
 
 
